@@ -146,6 +146,12 @@ func main() {
 		analyse(path, F)
 	}
 	emit(F)
+	if len(os.Args) > 2 {
+		if err := os.WriteFile(os.Args[2], []byte(translateAll()), 0o644); err != nil {
+			fmt.Fprintln(os.Stderr, "extract:", err)
+			os.Exit(1)
+		}
+	}
 }
 
 func isPkgVar(o types.Object) bool {
